@@ -571,7 +571,10 @@ def check_compiler_barrier(funcs, tag):
             insns = [t for _, t in funcs[name]]
             at = [i for i, t in enumerate(insns) if "(%rdi)" in t and (t.startswith("lock") or t.split()[0].startswith("xchg"))]
             if not at:
-                raise Internal("no atomic instruction on (%%rdi) found in %s: %s" % (name, "; ".join(insns)))
+                n += 1
+                out.append("%s (%s, %d bytes) emits no locked / xchg instruction on its operand at all, so it is neither atomic nor a barrier: %s"
+                           % ("uatomic_" + op, tag, w, "; ".join(t for t in insns if not t.startswith(("nop", "data16", "cs ")))))
+                continue
             first, last = at[0], at[-1]
             ld = [i for i, t in enumerate(insns) if re.search(r"\(%rsi\)\s*,", t) and not t.startswith("lea")]
             st = [i for i, t in enumerate(insns) if re.search(r",\s*\(%rdx\)\s*$", t)]
